@@ -29,7 +29,7 @@ MINIMUMS = {"quick": {"trees_walked": 150, "leaves_walked": 40000, "accepted_lea
                          "trees_with_rejection": 700, "trees_with_leftover_or_weights": 350}}
 CASE_TIMEOUT = 240
 MAX_LEAVES = 6000
-CLASSES = ["K1", "K2", "K3", "K3", "K4", "K5", "K5", "K6", "K6", "K7"]
+CLASSES = ["K1", "K2", "K3", "K4", "K5", "K6", "K6", "K7", "K12", "K12", "K12"]
 
 
 class Cut(BaseException):
@@ -114,6 +114,8 @@ def run_case(case):
                 res = "cut"
             if err:
                 break
+            if res != "cut" and not res.samples and not trace:
+                break  # RandomGen found no candidate at all (solution count 0): nothing was drawn
             leaves += 1
             pr = Fraction(1)
             for v, n in trace:
@@ -123,8 +125,6 @@ def run_case(case):
                 if len(res.samples) > 1:
                     viol.append({"kind": "no_sample", "msg": "RandomGen.sample(block, 1) returned %d samples" % len(res.samples)})
                     break
-                if not res.samples and not trace:
-                    break  # RandomGen found no candidate at all (solution count 0): nothing was drawn
             if res != "cut" and res.samples:
                 seq = block.add_implied_levels(res.samples[0])
                 seq = {k: v for k, v in seq.items() if isinstance(k, str) and k in p.user}
